@@ -67,27 +67,28 @@ def patch(
 
     stack = contextlib.ExitStack()
 
-    for im in std_targets + list([extra_targets] if isinstance(extra_targets, str) else extra_targets):
-        module_name = ".".join(im.split(".")[:-1])
-        fn_name = im.split(".")[-1]
-        # get module or try to import it if not loaded yet
-        module = sys.modules.get(module_name) or importlib.import_module(module_name)
-        fn = module.__dict__.get(fn_name)
-        assert fn, f"No module var {im}"
-
-        # if we imported the module above, it'll already be mocked because
-        # it'll reference the standard targets which are mocked first
-        if isinstance(fn, mock.MagicMock):
-            continue
-
-        fake = fake_fns.get(fn)
-        assert fake, f"Module var {im} is {fn} and not one of {fake_fns.keys()}"
-
-        p = mock.patch(im, side_effect=fake)
-        stack.enter_context(p)
-
     try:
+        for im in std_targets + list([extra_targets] if isinstance(extra_targets, str) else extra_targets):
+            module_name = ".".join(im.split(".")[:-1])
+            fn_name = im.split(".")[-1]
+            # get module or try to import it if not loaded yet
+            module = sys.modules.get(module_name) or importlib.import_module(module_name)
+            fn = module.__dict__.get(fn_name)
+            assert fn, f"No module var {im}"
+
+            # if we imported the module above, it'll already be mocked because
+            # it'll reference the standard targets which are mocked first
+            if isinstance(fn, mock.MagicMock):
+                continue
+
+            fake = fake_fns.get(fn)
+            assert fake, f"Module var {im} is {fn} and not one of {fake_fns.keys()}"
+
+            p = mock.patch(im, side_effect=fake)
+            stack.enter_context(p)
+
         yield None
     finally:
+        # also runs when setting up a target fails, so that the targets patched so far are restored
         stack.close()
         fs.duck_conn.close()
